@@ -7,7 +7,8 @@ Record case := {
   c_ops : list action;
   c_results : list (tid * vres);        (* verdict each validation returned *)
   c_store : list (author * N);          (* final metadata store, decoded *)
-  c_accepts : list (author * N)         (* (author, seqno) of accepted messages in acceptance order *)
+  c_accepts : list (author * N);        (* (author, seqno) of accepted messages in acceptance order *)
+  c_penalised : list tid                (* validations after which the score counters of a forwarder of that message had risen *)
 }.
 
 Definition vres_eqb (a b : vres) : bool :=
@@ -25,6 +26,8 @@ Definition monitor (c : case) : nat :=
   if negb (forallb (fun a => strictly_decreasing (acc_of a (rev (c_accepts c)))) authors) then 1%nat
   else if negb (forallb (fun a => nonce_of a (c_store c) =?
                                   match acc_of a (rev (c_accepts c)) with [] => 0 | n :: _ => n end) authors) then 2%nat
+  (* neither an accepted nor an ignored message costs any of its forwarders anything (no validation here rejects) *)
+  else if existsb (fun i => match rget i (c_results c) with Some _ => true | None => false end) (c_penalised c) then 3%nat
   else 0%nat.
 
 Definition check_case (c : case) : verdict :=
